@@ -1,5 +1,6 @@
 """C11 — dates and times: calendar-valid only, one meaning everywhere, round-trip stable."""
 from .common import Report
+from . import accept
 from . import numdate
 from .fieldtab import FieldTab
 
@@ -20,4 +21,5 @@ def run(F, tier):
     numdate.t2(rep, F, ft)
     numdate.strftime_census(rep, F)
     rep.sample({"pivot_in_parse_date_yymmdd": r.get("pivot")})
+    accept.u6(rep, F, "date")
     return rep
